@@ -84,6 +84,26 @@ def replyOf (dl : Delivery) : Option (ConnId × Nat) :=
   | .busReply serial _ => some (dl.to, serial)
   | _ => none
 
+/-- Does the object handler answer this call?  Errors of the dispatch (`_send_err`) and the built-in
+replies are sent whatever the flags say, an executed method answers only when a reply is expected. -/
+def opReplies (op : BusOp ρ) (m : Msg) : Bool :=
+  match op with
+  | .always => true
+  | _ => !m.noReply
+
+/-- The answer the bus owes for a message addressed to itself: a call is answered when it is the
+connection's first Hello, when the dispatch answers whatever the flags say, or when a reply is
+expected.  `called` = this connection has called Hello before. -/
+def answered (called : Bool) (m : Msg) (op : BusOp ρ) : Bool :=
+  decide (m.mtype = .call) &&
+  ((!called && decide (m.member = some helloMember)) || opReplies op m)
+
+/-- Has connection `i` called Hello? -/
+def helloCalled (s : State ρ) (i : ConnId) : Bool :=
+  match s.conns[i]? with
+  | some c => c.calledHello
+  | none => false
+
 /-! ### who holds which rule, from the history alone
 
 A connection holds a rule from the moment the bus processed its AddMatch call until it
